@@ -79,8 +79,20 @@ fn main() {
         Some("replay") => {
             let id = args.get(2).unwrap_or_else(|| usage());
             let path = args.get(3).unwrap_or_else(|| usage());
+            // raw (non-JSON) files are fuzzer artifacts: wrap the bytes into a case
+            let mut path = std::path::PathBuf::from(path);
+            let raw = std::fs::read(&path).unwrap_or_default();
+            if serde_json::from_slice::<serde_json::Value>(&raw).is_err() && (id == "C13" || id == "C14") {
+                let stage = if id == "C13" { "bytes-roundtrip" } else { "decode" };
+                let doc = serde_json::json!({"property": id, "stage": stage, "kind": "fuzz-artifact",
+                    "case": {"base": "Empty", "muts": [{"InsertRaw": {"pos": 0, "bytes": bcodec::hex(&raw)}}]}});
+                let out = engine::verif_dir().join("replays");
+                let _ = std::fs::create_dir_all(&out);
+                path = out.join(format!("{id}-artifact-{:016x}.json", engine::fp(&bcodec::hex(&raw))));
+                let _ = std::fs::write(&path, serde_json::to_string_pretty(&doc).unwrap());
+            }
             match props::spec(id) {
-                Some(spec) => engine::replay_property(spec, std::path::Path::new(path)),
+                Some(spec) => engine::replay_property(spec, &path),
                 None => 2,
             }
         }
